@@ -21,6 +21,7 @@ EXPLANATION = (
     "multi-path filter keeps on != unsat); every test runs against every frontier state of every depth; the "
     "verdict's counter keys are within the producers' domain. The end-to-end claim additionally needs "
     "C01, C02, C05, C10 (checked separately); the engine's values are not decided here."
+    ' As the end-to-end statement, C03 also evaluates the rules whose violation produces a false PASS: all C02 rules, the word-semantics rules of C06, constraint ownership / dump writer-reader / refinement exactness (C11, C04 R04.2), the core-cache rules of C16, fork-copy completeness (C20 R20.1/R20.2), the assertion-cheatcode rules of C13 and option forwarding (C18 R18.2/R18.7).'
 )
 ASSUMPTIONS = ["C01/C02/C05/C10 clauses hold (separate checks)", "solc's Panic(uint256) encoding"]
 
